@@ -42,9 +42,43 @@ CASE_TYPE = "scase"
 FORMATS = ["json", "yaml", "xml", "bson", "pickle"]
 FMT_CLASS = {"json": ("json", "JsonConfigFormat"), "yaml": ("yaml", "YamlConfigFormat"), "xml": ("xml", "XmlConfigFormat"),
              "bson": ("bson", "BsonConfigFormat"), "pickle": ("pickle", "PickleConfigFormat")}
-# values an untyped field may hold, and the formats whose domain excludes them (measured, notes in reg_C19)
-ANY_VALUES = {"int": 12, "str": "plain", "bytes": b"\x00\xffraw", "big": 2 ** 70, "nul": "a\x00b", "blist": [1, b"x"]}
-OUTSIDE = {"bytes": {"json", "xml"}, "big": {"bson"}, "nul": {"xml"}, "blist": {"json", "xml"}, "int": set(), "str": set()}
+# values an untyped field (AnyField, ListField() / DictField() without an item field) may hold, and the formats
+# whose dumps refuses them (measured on the unchanged tree with every kind x format x container; see reg_C19)
+ANY_VALUES = {"int": 12, "str": "plain", "bytes": b"\x00\xffraw", "big": 2 ** 70, "nul": "a\x00b", "blist": [1, b"x"],
+              "tuple": (1, "a"), "ntuple": (1, (2, 3)), "etuple": (), "list_tuple": [1, (2, 3)], "dict_tuple": {"k": (1, 2)},
+              "intkeys": {1: "a", 2: "b"}, "set": {1, 2}, "frozenset": frozenset([1]), "bytearray": bytearray(b"ab"),
+              "nested": {"a": [1, {"b": None}]}, "ustr": "caf\u00e9 \u2603", "inf": float("inf"), "complex": 1 + 2j,
+              "float": -0.5, "none": None}
+_TUPLES = {"tuple", "ntuple", "etuple", "list_tuple", "dict_tuple"}
+OUTSIDE = {k: set() for k in ANY_VALUES}
+for _k in ("bytes", "blist", "bytearray", "complex", "set", "frozenset"):
+    OUTSIDE[_k] |= {"json", "xml"}
+for _k in ("big", "bytearray", "complex", "set", "frozenset"):
+    OUTSIDE[_k] |= {"bson"}
+for _k in _TUPLES | {"intkeys", "nul"}:
+    OUTSIDE[_k] |= {"xml"}
+# the one normalisation a format applies on the way back: JSON and BSON have no tuple, a tuple loads as a list
+TUPLE_AS_LIST = {"json", "bson"}
+# (format, kind) outside the format's representable domain although dumps accepts it: maps with non-string keys
+# under JSON/BSON come back with string keys (XML refuses them, except a None key, which it drops).  C02/C04 speak
+# of string-keyed maps; ruled "observed, not counted" (reg_C19): kept out of the generated domain.  YAML and
+# pickle round-trip int keys and keep them.
+NOT_REPRESENTABLE = {("json", "intkeys"), ("bson", "intkeys")}
+UNTYPED = ("any", "ulist", "udict")
+SECRET_LENGTHS = [0, 1, 15, 16, 17, 31, 32, 33, 48]
+
+
+def untyped_value(container, kind):
+    v = ANY_VALUES[kind]
+    return v if container == "any" else [v, 1] if container == "ulist" else {"k": v}
+
+
+def secret_text(n):
+    """a plaintext of exactly n UTF-8 bytes (2-byte characters first: character count != byte count); never
+    collides with the 'S<step>:<path>' texts the cipher fault targets"""
+    return "\u00e9" * (n // 2) + "x" * (n % 2)
+
+
 KEYFILE_CONTENT = {"valid": lambda i: bytes((i * 37 + j) % 251 + 1 for j in range(32)), "short": lambda i: b"12345",
                    "empty": lambda i: b"", "long": lambda i: bytes(33)}
 PLAIN_VALUES = {"int": 41, "str": "v-text", "bool": True, "float": 2.5, "ilist": [1, 2, 3], "slist": ["x", "y"], "none": None}
@@ -101,7 +135,7 @@ def _install_hook():
 #   ("list", key, [fields of the item schema], [[fields of item 0], [fields of item 1], ...])
 def build_schema(fields):
     from cincoconfig import (Schema, IntField, StringField, BoolField, FloatField, ListField, AnyField, VirtualField,
-                             SecureField)
+                             SecureField, DictField)
     s = Schema()
     for f in fields:
         kind, key = f[0], f[1]
@@ -118,6 +152,10 @@ def build_schema(fields):
                 raise Broken("bad plain kind %r" % (f,))
         elif kind == "any":
             setattr(s, key, AnyField())
+        elif kind == "ulist":
+            setattr(s, key, ListField())
+        elif kind == "udict":
+            setattr(s, key, DictField())
         elif kind == "virt":
             setattr(s, key, VirtualField(lambda cfg: 5))
         elif kind == "secret":
@@ -149,16 +187,18 @@ def populate(cfg, fields, pre, real, inject, stepno=0, first=True):
             if f[3]:
                 fld = schema_fields[key]
                 inject["stubs"].setdefault(id(fld), (fld, []))[1].append((cfg, f[3]))
-        elif kind == "any":
-            setattr(cfg, key, ANY_VALUES[f[2]])
+        elif kind in UNTYPED:
+            setattr(cfg, key, untyped_value(kind, f[2]))
         elif kind == "secret":
-            if f[3]:
+            if f[3] is True:
                 text = "S%d:%s" % (stepno, dotted(pre, key))
                 setattr(cfg, key, text)
                 if f[4] == "enc":
                     inject["cipher"].add(text.encode())
-            else:
+            elif f[3] is False:
                 setattr(cfg, key, None)
+            else:
+                setattr(cfg, key, secret_text(f[3]))        # a plaintext of exactly f[3] UTF-8 bytes
         elif kind == "sub":
             sub = getattr(cfg, key)
             if f[2] and first:
@@ -176,7 +216,10 @@ def values_of(cfg, fields):
     out = []
     for f in fields:
         kind, key = f[0], f[1]
-        if kind in ("plain", "any", "secret"):
+        if kind == "secret":
+            v = getattr(cfg, key)
+            out.append((key, None if v == "" else v))       # an empty secret is stored as null (secure_field.py:316)
+        elif kind in ("plain",) + UNTYPED:
             v = getattr(cfg, key)
             out.append((key, list(v) if isinstance(v, list) else v))
         elif kind == "sub":
@@ -474,12 +517,12 @@ def _resolve(fields, kf):
         if kind == "plain":
             o = {None: "(Ok PNone)", "raise": "(Err EOtherExn)", "raise_ve": '(Err (EValidation (sa "custom.path")))'}[f[3]]
             out.append("FPlain %s %s" % (g_str(key), o))
-        elif kind == "any":
+        elif kind in UNTYPED:
             out.append("FPlain %s (Ok PNone)" % g_str(key))
         elif kind == "virt":
             out.append("FSkip %s" % g_str(key))
         elif kind == "secret":
-            out.append("FSecret %s %s %s %s" % (g_str(key), g_str(kf), g_bool(f[3]),
+            out.append("FSecret %s %s %s %s" % (g_str(key), g_str(kf), g_bool(bool(f[3])),
                                                "(Err EEncryption)" if f[4] == "enc" else "(Ok PNone)"))
         elif kind == "sub":
             out.append("FSub %s %s" % (g_str(key), _resolve(f[3], f[2] or kf)))
@@ -494,7 +537,7 @@ def formatter_fails(step):
 
     def anyvals(fs):
         for f in fs:
-            if f[0] == "any":
+            if f[0] in UNTYPED:
                 yield f[2]
             elif f[0] == "sub":
                 yield from anyvals(f[3])
@@ -616,20 +659,37 @@ def _oracle_save(case, step, info, obs):
         for p in sorted(set(info["attempts"]) | set(info["successes"])):
             if p != dest and p not in keyfiles:
                 bad.append("successful save opened %s for writing" % p)
-        if info["reload"] != "skipped" and info["reload"] != info["want"]:
-            if not _same_values(info["reload"], info["want"]):
+        if info["reload"] != "skipped":
+            want = _tuples_to_lists(info["want"]) if step["fmt"] in TUPLE_AS_LIST else info["want"]
+            got = _tuples_to_lists(info["reload"]) if step["fmt"] in TUPLE_AS_LIST and isinstance(info["reload"], list) else info["reload"]
+            if not _same_values(got, want):
                 bad.append("a fresh configuration loaded from the saved file differs: %r vs %r" % (info["reload"], info["want"]))
     return bad
 
 
 def _same_values(a, b):
+    """equality that also compares types (True != 1, (1,) != [1], {1: x} != {"1": x}); NaN equals NaN"""
     if isinstance(a, float) and isinstance(b, float):
         return a == b or (a != a and b != b)
     if type(a) is not type(b):
         return False
     if isinstance(a, (list, tuple)):
         return len(a) == len(b) and all(_same_values(x, y) for x, y in zip(a, b))
+    if isinstance(a, dict):
+        return (len(a) == len(b) and all(_same_values(k1, k2) for k1, k2 in zip(a, b))
+                and all(_same_values(a[k], b[k]) for k in a))
     return a == b
+
+
+def _tuples_to_lists(v):
+    """the values_of structure is made of (key, value) pairs and lists: only VALUES are normalised"""
+    def norm(x):
+        if isinstance(x, (tuple, list)):
+            return [norm(i) for i in x]
+        if isinstance(x, dict):
+            return {k: norm(i) for k, i in x.items()}
+        return x
+    return norm(v)
 
 
 def _show(b):
@@ -714,7 +774,7 @@ def base_fields():
 def _paths(fields, pre=()):
     """every injectable position: (path of indices, field spec)"""
     for i, f in enumerate(fields):
-        if f[0] in ("plain", "secret", "any"):
+        if f[0] in ("plain", "secret") + UNTYPED:
             yield pre + (i,), f
         elif f[0] == "sub":
             yield from _paths(f[3], pre + (i, 3))
@@ -822,6 +882,41 @@ def matrix(formats):
     return cases
 
 
+def _avoid_pending(fields, fmt):
+    """replace untyped values in a NOT_REPRESENTABLE (format, kind) combination by a representable kind"""
+    out = []
+    for f in fields:
+        if f[0] in UNTYPED and (fmt, f[2]) in NOT_REPRESENTABLE:
+            out.append((f[0], f[1], "nested"))
+        elif f[0] == "sub":
+            out.append(f[:3] + (_avoid_pending(f[3], fmt),))
+        elif f[0] == "list":
+            out.append(f[:3] + ([_avoid_pending(it, fmt) for it in f[3]],))
+        else:
+            out.append(f)
+    return out
+
+
+def roundtrip_matrix(formats):
+    """the SUCCESS clause: every kind of value an untyped field accepts x container x format; every secret length
+    around the AES block size x method, at the root, in a sub-configuration and in a list item"""
+    cases = []
+    for fmt in formats:
+        for kind in sorted(ANY_VALUES):
+            if (fmt, kind) in NOT_REPRESENTABLE:
+                continue
+            for container in UNTYPED:
+                fields = [("plain", "a", "int", None), (container, "u", kind), ("plain", "z", "str", None)]
+                cases.append(mkcase(fmt, fields, kind="roundtrip", faults=["domain:" + kind] if fmt in OUTSIDE[kind] else []))
+        for method in ("aes", "best", "xor"):
+            secs = [("secret", "s%d" % n, method, n, None) for n in SECRET_LENGTHS]
+            fields = list(secs) + [("sub", "sub", None, list(secs) + [("sub", "deep", None, list(secs[2:7]))]),
+                                   ("list", "items", list(secs[3:7]), [list(secs[3:7]), list(secs[3:7])])]
+            cases.append(mkcase(fmt, fields, kind="roundtrip"))
+            cases.append(mkcase(fmt, fields, kind="roundtrip", keyfiles=[("k/root.key", "missing")]))
+    return cases
+
+
 def random_fields(rng, depth, allow_any=True):
     fields = []
     used = 0
@@ -832,9 +927,10 @@ def random_fields(rng, depth, allow_any=True):
         if r < 0.45:
             fields.append(("plain", key, rng.choice(["int", "str", "bool", "float", "ilist", "slist", "none"]), None))
         elif r < 0.65:
-            fields.append(("secret", key, rng.choice(["xor", "aes", "best"]), rng.random() < 0.8, None))
+            fields.append(("secret", key, rng.choice(["xor", "aes", "best"]),
+                           rng.choice([True, True, True, False] + SECRET_LENGTHS), None))
         elif r < 0.72 and allow_any:
-            fields.append(("any", key, rng.choice(["int", "str", "bytes", "big", "nul", "blist"])))
+            fields.append((rng.choice(UNTYPED), key, rng.choice(sorted(ANY_VALUES))))
         elif r < 0.77:
             fields.append(("virt", key))
         elif r < 0.9 and depth > 0:
@@ -854,7 +950,7 @@ def _vary(rng, shape):
     out = []
     for f in shape:
         if f[0] == "secret":
-            out.append(f[:3] + (rng.random() < 0.7, None))
+            out.append(f[:3] + (rng.choice([True, True, False] + SECRET_LENGTHS), None))
         elif f[0] == "sub":
             out.append(("sub", f[1], f[2], _vary(rng, f[3])))
         elif f[0] == "list":
@@ -891,7 +987,7 @@ def random_case(rng):
                 k = rng.choice(["raise", "raise", "raise_ve"])
                 fields = _replace(fields, path, lambda s: s[:3] + (k,))
                 faults.append("to_basic" if k == "raise" else "to_basic-ve")
-            elif f[0] == "secret" and f[3] and f[4] is None:
+            elif f[0] == "secret" and f[3] is True and f[4] is None:
                 fields = _replace(fields, path, lambda s: s[:4] + ("enc",))
                 faults.append("cipher")
             positions = list(_paths(fields))
@@ -911,8 +1007,9 @@ def random_case(rng):
         if st not in ("valid", "missing"):
             faults.append("keyfile-" + st)
     for p, f in _paths(fields):
-        if f[0] == "any" and fmt in OUTSIDE[f[2]]:
+        if f[0] in UNTYPED and fmt in OUTSIDE[f[2]]:
             faults.append("domain:" + f[2])
+    fields = _avoid_pending(fields, fmt)
     dest = rng.choice(["d/dest.cfg", "d/dest.cfg", "d/other.bin", "~/dest.cfg", "nd/dest.cfg"])
     if dest.startswith("nd/"):
         prev = None
@@ -1062,7 +1159,7 @@ def random_history(rng):
                 if f[0] == "plain":
                     fields = _replace(fields, path, lambda s: s[:3] + ("raise",))
                     faults.append("to_basic")
-                elif f[0] == "secret" and f[3]:
+                elif f[0] == "secret" and f[3] is True:
                     fields = _replace(fields, path, lambda s: s[:4] + ("enc",))
                     faults.append("cipher")
             elif rr < 0.38:
@@ -1074,8 +1171,9 @@ def random_history(rng):
             for n, st in kstate.items():
                 if st in BAD_STATES:
                     faults.append("keyfile-" + st)
+            fields = _avoid_pending(fields, fmt)
             for _, f in _paths(fields):
-                if f[0] == "any" and fmt in OUTSIDE[f[2]]:
+                if f[0] in UNTYPED and fmt in OUTSIDE[f[2]]:
                     faults.append("domain:" + f[2])
             dest = rng.choice(dests + [c["dest"], c["dest"], "nd/dest.cfg"])
             if dest.startswith("nd/"):
@@ -1089,7 +1187,7 @@ def random_history(rng):
 
 
 def generate(rng, tier):
-    cases = matrix(FORMATS) + histories(FORMATS)
+    cases = matrix(FORMATS) + histories(FORMATS) + roundtrip_matrix(FORMATS)
     n = 1000 if tier == "quick" else 20000
     for _ in range(n):
         cases.append(random_case(rng))
